@@ -1,6 +1,7 @@
 import OapiVerif.Props.C04
 import OapiVerif.Model.Reject
 import OapiVerif.Gen.C06
+import OapiVerif.Proofs.IntParse
 /-!
 C06 — Malformed or missing parameters never reach the user's handler.
 
@@ -110,3 +111,37 @@ example : (headerParam .simple false true [88] .arr none) = .reject .requiredHea
 example : mustReject ⟨0, 2, 0, 1, true, 8, false, false, 400, 0⟩ = true := by decide
 
 end OapiVerif.Reject
+
+namespace OapiVerif.Props.C06
+open OapiVerif.IntParse
+
+/-! ### the typed layer of integer parameters (Model/IntParse.lean: `strconv.ParseInt` + the destination's range) -/
+
+/-- "Conversely, a request whose parameters are … well-formed is never rejected": the decimal text of every value of
+the destination's range (`bits` = 32 for int32, 64 for int64 / int) is accepted and gives that value — negative
+values, zero and both bounds included. -/
+theorem C06_integer_in_range_accepted (bits : Nat) (v : Int) (h : InRange bits v) :
+    parseInt bits (renderInt v) = .ok v := parseInt_render bits v h
+
+/-- "a value that cannot be converted to the declared type never reaches the handler" — overflow: the text of a value
+outside the destination's range is refused, -/
+theorem C06_integer_overflow_rejected (bits : Nat) (v : Int) (h : ¬InRange bits v) :
+    parseInt bits (renderInt v) = .error .rejected := parseInt_render_out_of_range bits v h
+
+/-- wrong type: a text with any character besides digits and a sign is refused, -/
+theorem C06_integer_malformed_rejected (bits : Nat) (s : Str) (c : Nat) (hc : c ∈ s) (hnd : isDigit c = false)
+    (h45 : c ≠ 45) (h43 : c ≠ 43) : parseInt bits s = .error .rejected := parseInt_syntax bits s c hc hnd h45 h43
+
+/-- and nothing outside the range is ever produced. -/
+theorem C06_integer_accepted_fits (bits : Nat) (s : Str) (v : Int) (h : parseInt bits s = .ok v) : InRange bits v :=
+  parseInt_ok_inRange bits s v h
+
+example : parseInt 32 (renderInt 2147483647) = .ok 2147483647 := parseInt_render _ _ (by decide)
+example : parseInt 32 (renderInt 2147483648) = .error .rejected := parseInt_render_out_of_range _ _ (by decide)
+example : parseInt 64 [45, 57] = .ok (-9) := by rfl
+example : parseInt 64 [49, 46, 53] = .error .rejected := by rfl
+example : parseInt 64 [] = .error .rejected := by rfl
+example : parseInt 64 [45] = .error .rejected := by rfl
+example : parseInt 64 [43, 48, 55] = .ok 7 := by rfl
+
+end OapiVerif.Props.C06
